@@ -25,6 +25,7 @@ import (
 	"testing"
 	"time"
 
+	"github.com/apmckinlay/gsuneido/compile"
 	. "github.com/apmckinlay/gsuneido/core"
 	"github.com/apmckinlay/gsuneido/db19"
 	"github.com/apmckinlay/gsuneido/db19/stor"
@@ -80,12 +81,18 @@ type vcsSide struct {
 	rows  []vcsRow // the row fetched last from the session's own table (usable once)
 	cols  []string
 	own   string
+	sv    *Sviews     // session views (local side; the server keeps the client's per connection)
+	ms    *muxSession // client side only: to inspect what is left of a response
+	left  int         // bytes of the last response the client stub did not consume
 }
 
 var vcsDigits = regexp.MustCompile(`[0-9]+`)
 
 func vcsErr(msg string) string {
 	msg = strings.TrimSuffix(msg, " (from server)")
+	if strings.Contains(msg, "Packable") {
+		return "!unpackable"
+	}
 	return "!" + vcsDigits.ReplaceAllString(msg, "#")
 }
 
@@ -122,7 +129,12 @@ func (sd *vcsSide) exec(op vcsOp) (out string) {
 			out = vcsErr(msg)
 		}
 	}()
-	return sd.exec1(op)
+	out = sd.exec1(op)
+	sd.left = 0
+	if sd.ms != nil && out != "skip" { // "skip": no request was sent
+		sd.left = sd.ms.Remaining()
+	}
+	return out
 }
 
 func vcsPick[T any](l []T, i int) (T, bool) {
@@ -174,7 +186,7 @@ func (sd *vcsSide) exec1(op vcsOp) string {
 	case "Query":
 		if t, ok := vcsPick(sd.trans, op.a); ok {
 			sd.qs = append(sd.qs, nil) // the slot exists even when the request fails
-			sd.qs[len(sd.qs)-1] = t.Query(op.s, nil)
+			sd.qs[len(sd.qs)-1] = t.Query(op.s, sd.sv)
 			return "ok"
 		}
 	case "TranGet":
@@ -229,7 +241,7 @@ func (sd *vcsSide) exec1(op vcsOp) string {
 		}
 	case "Cursor":
 		sd.curs = append(sd.curs, nil)
-		sd.curs[len(sd.curs)-1] = sd.d.Cursor(op.s, nil)
+		sd.curs[len(sd.curs)-1] = sd.d.Cursor(op.s, sd.sv)
 		return "ok"
 	case "CGet":
 		c, ok1 := vcsPick(sd.curs, op.a)
@@ -263,7 +275,7 @@ func (sd *vcsSide) exec1(op vcsOp) string {
 			return "ok"
 		}
 	case "Admin":
-		sd.d.Admin(op.s, nil)
+		sd.d.Admin(op.s, sd.sv)
 		return "ok"
 	case "Check":
 		return sd.d.Check(op.a == 1)
@@ -272,11 +284,9 @@ func (sd *vcsSide) exec1(op vcsOp) string {
 	case "LibGet":
 		return fmt.Sprintf("%q", sd.d.LibGet(op.s))
 	case "Run":
-		v := sd.d.Run(sd.th, op.s)
-		if v == nil {
-			return "nil"
-		}
-		return v.String()
+		return vcsVal(sd.d.Run(sd.th, op.s))
+	case "Exec":
+		return vcsVal(sd.d.Exec(sd.th, SuObjectOf(SuStr("VerifExec"), SuStr(op.s))))
 	case "Cursors":
 		return "ok" // number is per session on a server, 0 locally: documented difference
 	case "Transactions":
@@ -287,12 +297,44 @@ func (sd *vcsSide) exec1(op vcsOp) string {
 	return "skip"
 }
 
+// vcsVal canonicalises the result of Run/Exec. A value that cannot be packed (function, class)
+// exists only locally; through the protocol the request must fail (documented difference).
+func vcsVal(v Value) string {
+	if v == nil {
+		return "nil"
+	}
+	if _, ok := v.(Packable); !ok {
+		return "!unpackable"
+	}
+	return v.String()
+}
+
+const vcsExecFn = `function (what) {
+	if what is 'num'
+		return 123
+	if what is 'str'
+		return 'abc'
+	if what is 'big'
+		return 'x'.Repeat(9000)
+	if what is 'obj'
+		return #(1, 'two', a: 3)
+	if what is 'fn'
+		return function () { 1 }
+	if what is 'class'
+		return class { X: 1 }
+	if what is 'nil'
+		return
+	throw 'verif exec error: ' $ what
+	}`
+
 func vcsScript(r *rand.Rand, tbl string, n int) []vcsOp {
 	dirs := []int{int(Next), int(Prev)}
 	one := []int{int(Next), int(Prev), int(Only), int(Any)}
 	queries := []string{tbl, tbl + " where k > 3", tbl + " where k = 5", tbl + " sort v", tbl + " project k",
 		tbl + " extend z = k + 1", tbl + " where v = 'zz'", "tables where table = '" + tbl + "'", tbl + " rename v to w",
-		tbl + " summarize count", "nosuch", tbl + " where"}
+		tbl + " summarize count", "nosuch", tbl + " where",
+		// the session view (defined by an Admin request of this script, see below)
+		"sv" + tbl, "sv" + tbl + " where k > 4", "sv" + tbl + " sort v", "sv" + tbl + " where k = 6"}
 	// the script respects the protocol: an ended transaction, its queries, a closed query or
 	// cursor are never used again (SuTran/SuQuery enforce that above this interface)
 	var ops []vcsOp
@@ -350,6 +392,9 @@ func vcsScript(r *rand.Rand, tbl string, n int) []vcsOp {
 	}
 	newTran(true)
 	newTran(false)
+	if r.Intn(4) != 0 { // usually defined early, sometimes only later or never
+		ops = append(ops, vcsOp{kind: "Admin", s: "sview sv" + tbl + " = " + tbl + " where k > 2"})
+	}
 	key := 100
 	for i := 0; i < n; i++ {
 		if liveTran(true) < 0 {
@@ -427,10 +472,12 @@ func vcsScript(r *rand.Rand, tbl string, n int) []vcsOp {
 		case c < 38:
 			// schema changes of a table with open transactions race with them (exclusive access
 			// is released asynchronously), so only other tables are created/dropped
-			adm := []string{"create " + tbl + "y" + fmt.Sprint(i) + " (a, b) key(a) index(b)", "create " + tbl + "x" + fmt.Sprint(i) + " (a) key(a)", "drop nosuch", "bad admin"}
+			adm := []string{"sview sv" + tbl + " = " + tbl + " where k > 2", "sview sv" + tbl + " = " + tbl + " where k > 2", "drop sv" + tbl,
+				"sview sw" + tbl + fmt.Sprint(i) + " = sv" + tbl + " extend z = 1",
+				"create " + tbl + "y" + fmt.Sprint(i) + " (a, b) key(a) index(b)", "create " + tbl + "x" + fmt.Sprint(i) + " (a) key(a)", "drop nosuch", "bad admin"}
 			ops = append(ops, vcsOp{kind: "Admin", s: adm[r.Intn(len(adm))]})
 		default:
-			k := []string{"Check", "Libraries", "LibGet", "Run", "Transactions", "Final", "CClose"}[r.Intn(7)]
+			k := []string{"Check", "Libraries", "LibGet", "Run", "Run", "Exec", "Exec", "Transactions", "Final", "CClose"}[r.Intn(10)]
 			a := r.Intn(2)
 			if k == "CClose" {
 				a = liveCur()
@@ -439,7 +486,11 @@ func vcsScript(r *rand.Rand, tbl string, n int) []vcsOp {
 				}
 				curs[a] = false
 			}
-			ops = append(ops, vcsOp{kind: k, a: a, s: []string{"Foo", "1 + 2 * 3", "'a' $ 'b'", "throw 'x'"}[r.Intn(4)]})
+			arg := []string{"Foo", "1 + 2 * 3", "'a' $ 'b'", "throw 'x'", "#(1, a: 2)", "#20200131", "function () { }", "class { }", "1 +", "x"}[r.Intn(10)]
+			if k == "Exec" {
+				arg = []string{"num", "str", "big", "obj", "fn", "class", "nil", "boom"}[r.Intn(8)]
+			}
+			ops = append(ops, vcsOp{kind: k, a: a, s: arg})
 		}
 	}
 	// end every transaction so that the final states are comparable
@@ -496,6 +547,7 @@ func TestVerifC40ClientServer(t *testing.T) {
 	db19.MakeSuTran = func(ut *db19.UpdateTran) *SuTran { return NewSuTran(nil, true) }
 	qry.MakeSuTran = func(qt qry.QueryTran) *SuTran { return NewSuTran(nil, true) }
 	workers = mux.NewWorkers(doRequest)
+	Global.TestDef("VerifExec", compile.Constant(vcsExecFn))
 	cert, err := tls.X509KeyPair(ServerCert, ServerKey)
 	if err != nil {
 		panic(err)
@@ -542,15 +594,22 @@ func TestVerifC40ClientServer(t *testing.T) {
 			wg.Add(1)
 			go func(s int) { // A: all sessions concurrently over the one connection
 				defer wg.Done()
-				sd := &vcsSide{own: tables[s], d: client.NewSession(), th: &Thread{}, cols: []string{"k", "v", "w", "z", "count", "table"}}
-				for _, op := range scripts[s] {
+				ms := client.NewSession()
+				sd := &vcsSide{own: tables[s], d: ms, ms: ms, th: &Thread{}, cols: []string{"k", "v", "w", "z", "count", "table"}}
+				for i, op := range scripts[s] {
 					resA[s] = append(resA[s], sd.exec(op))
+					if sd.left != 0 {
+						fail("cs-response-trailing-bytes:"+op.kind, fmt.Sprintf("round %d session %d request #%d %+v: the client stub left %d bytes of the response unread (result %q)", round, s, i, op, sd.left, vcsClip(resA[s][i])))
+					}
 				}
 			}(s)
 		}
 		wg.Wait()
 		for s := 0; s < nsess; s++ { // B: local
-			sd := &vcsSide{own: tables[s], d: dlB, th: &Thread{}, cols: []string{"k", "v", "w", "z", "count", "table"}}
+			th := &Thread{}
+			sv := &Sviews{}
+			th.SetSviews(sv)
+			sd := &vcsSide{own: tables[s], d: dlB, sv: sv, th: th, cols: []string{"k", "v", "w", "z", "count", "table"}}
 			for _, op := range scripts[s] {
 				resB[s] = append(resB[s], sd.exec(op))
 			}
